@@ -260,6 +260,36 @@ pub fn gen_c03(rng: &mut Rng, thorough: bool, emit: &mut dyn FnMut(ServeCase)) {
             }
         }
     }
+    // 1b. many tiny ranges around the point where 80 bytes of overhead each reach the entity length
+    // (the complete 200 from there on), distinct, repeated, and with one big range at the end
+    for l in [160u64, 200, 1000, 1001, 1079, 4000] {
+        let c = l / 80;
+        for n in [c.saturating_sub(1).max(2), c.max(2), c + 1, c + 2, 3 * c + 7, 300] {
+            for shape in 0..3 {
+                let mut parts: Vec<String> = vec![];
+                for i in 0..n {
+                    let p = match shape {
+                        0 => (i * 3) % l,
+                        _ => 5,
+                    };
+                    parts.push(format!("{}-{}", p, p));
+                }
+                if shape == 2 {
+                    parts.pop();
+                    parts.push(format!("0-{}", l - 1));
+                }
+                let h = format!("bytes={}", parts.join(","));
+                for m in ["GET", "HEAD"] {
+                    if n == 300 && m == "GET" && l > 200 {
+                        continue;
+                    }
+                    let mut cs = range_case(l, h.clone().into_bytes(), m, format!("G:many-tiny-ranges L={} n={} shape={} {}", l, n, shape, m));
+                    cs.max_polls = 1000;
+                    emit(cs);
+                }
+            }
+        }
+    }
     // 2. boundary product
     let lens: Vec<u64> = vec![0, 1, 2, 10, 1000, 1 << 32, 1 << 63, U64MAX - 1, U64MAX];
     let n2 = if thorough { 60000 } else { 4000 };
